@@ -23,6 +23,7 @@
 (*   [k|->"tuple",es] [k|->"map",kt,vt] [k|->"union",alts]                 *)
 (*   [k|->"lit",vals : Seq(primitive datum)] [k|->"enum",cls]              *)
 (*   [k|->"newtype",name,sup] [k|->"annot",t,cons] [k|->"obj",cls]         *)
+(*   [k|->"dunion",alts,alias,keys]   Annotated[Union[..], discriminator]  *)
 (* Constraints: Seq(<<name, value>>) (numeric bounds in halves).           *)
 (* Fields: [name, alias, type, dk, dv, flat, props, pat, reqmd, skipd,     *)
 (*          skips, nau, fbd, kind, cons]                                   *)
@@ -43,6 +44,8 @@ TNew(n, s)     == [k |-> "newtype", name |-> n, sup |-> s]
 TAnnot(t, c)   == [k |-> "annot", t |-> t, cons |-> c]
 TObj(c)        == [k |-> "obj", cls |-> c]
 TOpt(t)        == TUnion(<<t, TPrim("none")>>)
+\* discriminated union of object types: datum[alias] = keys[i] selects alts[i]
+TDUnion(alts, alias, keys) == [k |-> "dunion", alts |-> alts, alias |-> alias, keys |-> keys]
 
 ---------------------------------------------------------------------------
 \* Naming: external name of a field under the per-call / global aliaser.
@@ -405,6 +408,16 @@ RD(ctx, T, cons, d) ==
              i    == RLitIdx(ctx, vals, d)
          IN IF i > 0 THEN Ok(VEnum(T.cls, ms[i][1])) ELSE IF i = 0 THEN Bad(LitErr(vals, d)) ELSE Unspecified
     [] T.k = "obj"     -> RObj(ctx, T.cls, cons, d, "")
+    [] T.k = "dunion"  ->
+         \* the discriminator property selects the alternative; it is tolerated in the
+         \* selected object even when it is not one of its fields
+         LET al == Ali(ctx, T.alias) IN
+         IF d.k # "obj" THEN Bad(Err("type:object"))
+         ELSE IF ~HasKey(d.o, al) THEN Bad(Under(al, Err("missing")))
+         ELSE LET tag == Get(d.o, al)
+                  hit == {i \in DOMAIN T.keys : tag.k = "str" /\ T.keys[i] = tag.s}
+              IN IF hit = {} THEN Bad(Under(al, Err("oneOf")))
+                 ELSE RObj(ctx, Unwrap(T.alts[CHOOSE i \in hit : TRUE]).cls, cons, d, al)
 
 ---------------------------------------------------------------------------
 \* Under-specified corner (DESIGN A.7): for an integer datum, a union in which an
@@ -435,6 +448,7 @@ Ambig(ctx, T, seen) ==
     [] T.k = "map"     -> Ambig(ctx, T.kt, seen) \/ Ambig(ctx, T.vt, seen)
     [] T.k = "obj"     -> T.cls \notin seen /\
                           \E i \in DOMAIN ctx.C[T.cls].fields : Ambig(ctx, ctx.C[T.cls].fields[i].type, seen \cup {T.cls})
+    [] T.k = "dunion"  -> \E i \in DOMAIN T.alts : Ambig(ctx, T.alts[i], seen)
     [] OTHER           -> FALSE
 
 \* int n and float n.0 identified
